@@ -93,6 +93,26 @@ func crashPointKind(p string) string {
 }
 
 func genCrash(rng *rand.Rand, tier string, emit func(string)) {
+	if os.Getenv("CRASH_FOCUS") == "cluster" {
+		// C04: kill -9 of the leader / a follower of a 3-process group in the MIDDLE of a history, the client goes on,
+		// the victim comes back during or after the history
+		runs := 6
+		if tier == "thorough" {
+			runs = 60
+		}
+		for i := 0; i < runs; i++ {
+			w := 120 + rng.Intn(80)
+			l := fmt.Sprintf("run3 seed=%d point=kill k=1 writes=%d victim=%s killat=%d", rng.Intn(1<<30), w, []string{"leader", "follower"}[i%2], 10+rng.Intn(w/2))
+			if i%4 < 2 {
+				l += " revive=1"
+			}
+			if i%3 == 2 {
+				l += fmt.Sprintf(" win=%d", 2+rng.Intn(4))
+			}
+			emit(l)
+		}
+		return
+	}
 	found, _ := node.VerifPoints()
 	sort.Strings(found)
 	var pts []string
@@ -161,6 +181,7 @@ func genCrash(rng *rand.Rand, tier string, emit func(string)) {
 			{"applysnap.restore.before", "follower", 1, 0, 2},
 			{"applysnap.restore.after", "follower", 1, 0, 2},
 			{"kill", "leader", 1, 0, 0},
+			{"kill", "leader", 1, 0, 3}, // phase 3 here: kill -9 in the middle of the history, the client moves to the new leader, the victim comes back meanwhile
 		}
 		if tier == "thorough" {
 			for _, p := range found {
@@ -187,6 +208,9 @@ func genCrash(rng *rand.Rand, tier string, emit func(string)) {
 			}
 			if x.phase == 2 {
 				l += " phase=2"
+			}
+			if x.phase == 3 {
+				l += fmt.Sprintf(" killat=%d revive=1", 20+rng.Intn(60))
 			}
 			if r%2 == 1 {
 				l += fmt.Sprintf(" win=%d", 2+rng.Intn(4))
@@ -616,7 +640,8 @@ func newCrash(c *Ctx) func(string) string {
 				if role != "leader" {
 					role = "follower"
 				}
-				return runCrash3(c, seed, point, k, n, delay, win, role, phase)
+				killAt, _ := strconv.Atoi(a["killat"])
+				return runCrash3(c, seed, point, k, n, delay, win, role, phase, killAt, a["revive"] == "1")
 			}
 			return runCrash(c, seed, point, k, n, delay, win, killAfter, engine, phase)
 		})
